@@ -156,13 +156,18 @@ def run_case(case):
             bump('c08-inconsistent-rejected')
         return {'evals': 1, 'violations': [], 'obs': obs, 'sigs': [], 'sample': None}
     oracle.check_frames(run)
+    undecodable = None
+    if run.stage_error is not None:
+        e_ = run.stage_error[1]
+        undecodable = {'prop': PROP, 'kind': 'records-undecodable', 'mech': 'undecodable:' + getattr(e_, 'kind', type(e_).__name__),
+                       'detail': f'the written file does not decode, descriptors and records cannot be compared: {e_}'}
     for k, v in run.obs.items():
         bump(k, v)
     chs = [o for o in sp['ops'] if o['op'] == 'channel']
     sig = str(sorted({(o['data']['dtype'][1:], str(o.get('cast_dtype', {}).get('$dtype') if o.get('cast_dtype') else None),
                        len(o['data']['shape'])) for o in chs})) + str(sorted(set(classes)))
     nontrivial = bool(classes) or any(o.get('cast_dtype') or len(o['data']['shape']) > 1 for o in chs)
-    vio = [v.as_dict() for v in run.by_prop(PROP)]
+    vio = [v.as_dict() for v in run.by_prop(PROP)] + ([undecodable] if undecodable else [])
     sample = {'channels': [(o['name'], o['data']['dtype'], o['data']['shape'], o.get('cast_dtype'), o['attrs']) for o in chs][:5],
               'classes': classes}
     return {'evals': max(1, run.obs.get('frame-checked', 0)), 'violations': vio, 'obs': obs,
